@@ -39,7 +39,7 @@ ASSUMPTIONS = ["code outside the traced files is atomic between two pre-emption 
                "request loss/duplication not injected: no property promises idempotent retry",
                "sampling over schedules, not proof; the single-pre-emption sweep is complete only for the sampled request pairs"]
 FAULT_KINDS = ["preemption", "client_disconnect", "step_exception", "invalid_request"]
-PROBES = ["time_passes_while_stream_held", "held_stream", "late_close_of_finished_stream", "session_restarted_during_choreography", "stepping_without_session", "invalid_request_sent", "disconnect_mid_stream", "exception_mid_request",
+PROBES = ["exception_inside_a_step", "time_passes_while_stream_held", "held_stream", "late_close_of_finished_stream", "session_restarted_during_choreography", "stepping_without_session", "invalid_request_sent", "disconnect_mid_stream", "exception_mid_request",
           "refused_while_locked", "stream_completed", "preempted_inside_run_step"]
 EXHAUSTIVE = {"quick": False, "thorough": False}
 
@@ -60,9 +60,9 @@ def client_of(kind, rng):
         return {"kind": "stream", "chunks": rng.choice([1, 2, 3, 4, 5]), "body": True}
     if kind == "run_steps_exc":
         n = rng.choice([2, 3, 4])
-        return {"kind": "run_steps", "n": n, "raise_at": rng.randrange(n)}
+        return {"kind": "run_steps", "n": n, "raise_at": rng.randrange(n), "raise_where": rng.choice(["before", "inside"])}
     if kind == "stream_exc":
-        return {"kind": "stream", "chunks": None, "body": True, "raise_at": rng.choice([0, 1, 2])}
+        return {"kind": "stream", "chunks": None, "body": True, "raise_at": rng.choice([0, 1, 2]), "raise_where": rng.choice(["before", "inside"])}
     if kind in ("results", "keep_alive"):
         return {"kind": kind}          # a request that does not advance anything, in flight next to the stepping ones
     if kind == "run_step_bad":
@@ -497,6 +497,9 @@ def execute(case):
                        "status": None, "failed": False, "bad_shape": False}
                 if c.get("raise_at") is not None:
                     w.raise_at[tag] = c["raise_at"]
+                    w.raise_where[tag] = c.get("raise_where", "before")
+                    if c.get("raise_where") == "inside":
+                        res.probe("exception_inside_a_step")
                 if c["kind"] in ("results", "keep_alive"):
                     rr = w.get("/%s/session-results" % inst, tag=tag) if c["kind"] == "results" else w.post("/%s/keep-alive" % inst, tag=tag)
                     rec["status"] = rr.status
